@@ -121,6 +121,13 @@ pub fn run(args: &Args, rep: &mut Report) {
             todo.push((format!("gen:{}:{}:{}", prof, seed, c), g.case()));
         }
     }
+    // cross-configuration comparison: the build with `parallel` dumps label → layout, the build
+    // without it (same seed, same cases) compares
+    let dump = args.get("dump-layouts");
+    let compare: Option<BTreeMap<String, String>> = args.get("compare-layouts").and_then(|f| std::fs::read_to_string(f).ok()).map(|t| {
+        t.lines().filter_map(|l| l.split_once('\t').map(|(a, b)| (a.to_string(), b.to_string()))).collect()
+    });
+    let mut dumped = String::new();
     let exe = std::env::current_exe().unwrap();
     let tmp = format!("{}.case", args.str("out", "/verif/evidence/.inv"));
     let mut reported = false;
@@ -129,6 +136,18 @@ pub fn run(args: &Args, rep: &mut Report) {
         let (l0, mdiff) = layout_of(ops, Some(&mut drv), &pool);
         let r0 = eval_case(ops, None, &pool);
         rep.case(&l0, r0.layout.as_ref().map(|l| l.nontrivial()).unwrap_or(false));
+        if dump.is_some() {
+            dumped.push_str(&format!("{}\t{}\n", label, l0));
+        }
+        if let Some(cmp) = &compare {
+            if let Some(other) = cmp.get(label) {
+                rep.count("cross_configuration_comparisons");
+                if *other != l0 && !reported {
+                    reported = true;
+                    rep.violate("C19", "impl", "", format!("the same registration sequence is laid out differently with and without the `parallel` feature: {} (with) vs {} (without) [{}]", other, l0, label), case_lines(ops));
+                }
+            }
+        }
         if rep.samples.is_empty() && r0.layout.as_ref().map(|l| l.nontrivial()).unwrap_or(false) {
             let mut rng = Rng::new(seed ^ 0x1417, k as u64);
             rep.sample(Json::obj(vec![("original", Json::Arr(case_lines(ops).into_iter().map(Json::s).collect())), ("transformed_twin", Json::Arr(case_lines(&transform(ops, &mut rng, 7)).into_iter().map(Json::s).collect())), ("layout_of_both", Json::s(l0.clone()))]));
@@ -174,4 +193,7 @@ pub fn run(args: &Args, rep: &mut Report) {
         }
     }
     std::fs::remove_file(&tmp).ok();
+    if let Some(f) = dump {
+        std::fs::write(f, dumped).ok();
+    }
 }
